@@ -153,6 +153,13 @@ func Bytes(data any, args ...any) []byte {
 	if wr == nil {
 		wr, _ = writerPool.Get().(*Writer)
 		defer writerPool.Put(wr)
+		// The writer goes back to the pool on return and may be picked up
+		// by another goroutine so its buffer can not be handed out.
+		b := wr.MustSEN(data)
+		out := make([]byte, len(b))
+		copy(out, b)
+
+		return out
 	}
 	return wr.MustSEN(data)
 }
